@@ -779,7 +779,7 @@ def visited_has(it, env_var, cls):
 class Traverse(DeclContract):
     name = 'AnnotationDAGBuilder._traverse_breadth_first_to_dag'
     returns = 'none'
-    props = ('C15', 'C16', 'C09', 'C10', 'C11')
+    props = ('C15', 'C16', 'C09', 'C10', 'C11', 'C03', 'C05')
     doc = ('every class taken from the work list is validated, mapped and has its marks read; every mark adds exactly the '
            'nodes / edges / attributes it declares and schedules the classes it refers to')
     options = {'max_paths': 6000}
@@ -956,6 +956,11 @@ class Traverse(DeclContract):
             vis = lambda c: visited_has(it, ctx.var('visited'), c)
             out = []
             has_inner = any(e.kind == 'loop_summary' for e in effs)
+            # C03 "exactly one keyword argument per declared parameter" / C05 "no engine-internal artefact": the engine hands
+            # the arguments on as **kwargs next to its own keyword parameters node_id / force_default (__execute_node) and
+            # node / node_id (run_node); a declared parameter of such a name can never be delivered
+            out.append(('the-parameter-name-does-not-collide-with-a-keyword-of-the-engine|C03,C05', z3.And(
+                kw != PyV.str_(S('node_id')), kw != PyV.str_(S('node')), kw != PyV.str_(S('force_default')))))
             if pairs and not sws and not has_inner and not an:
                 # Input mark
                 p = pairs[0]
